@@ -299,9 +299,10 @@ static std::string mutate(Rng& r, std::string s) {
     int m = r.range(1, 4);
     static const char* SPECIAL = "\r\n :;=,?&/+-0123456789abcdefxX\0\xff\t";
     for (int k = 0; k < m; k++) {
-        int op = r.range(0, 9);
+        int op = r.range(0, 10);
         size_t pos = s.empty() ? 0 : r.below(s.size());
         switch (op) {
+        case 10: put_magic_number(r, s); break;
         case 0: if (!s.empty()) s[pos] ^= (char)(1 << r.below(8)); break;
         case 1: if (!s.empty()) s.erase(pos, (size_t)r.range(1, 8)); break;
         case 2: s.insert(pos, 1, SPECIAL[r.below(34)]); break;
@@ -413,6 +414,8 @@ static void run_c03(long cases) {
         for (auto t : {"max-age=12", "max-age=", "max-age", "max-age=99999999999999999999", "no-cache,", ","}) c03_directed(k++, "Cache-Control", t);
         for (auto t : {"text/plain; q=0.5", "text/plain; q=", "text/plain; q", "text/plain;", "text/", "text/plain; q=1e999", "text/plain; q=nan", "text/plain; q=0x1p-1"}) c03_directed(k++, "MediaType::fromRaw", t);
         for (auto t : {"100-continue", "100-continu", ""}) c03_directed(k++, "Expect", t);
+        for (auto t : {"2147483639", "2147483640", "2147483646", "2147483647", "2147483648", "2147483649", "2147483650", "4294967295", "4294967296", "9223372036854775807", "9223372036854775808", "18446744073709551616", "-1", "-2147483648", "-2147483649"}) {
+            c03_directed(k++, "Cookie::fromRaw", std::string("a=b; Max-Age=") + t); c03_directed(k++, "Cache-Control", std::string("max-age=") + t); c03_directed(k++, "Content-Length", t); }
         for (auto t : {"18446744073709551615", "18446744073709551616", "-1", "", " 5"}) c03_directed(k++, "Content-Length", t);
     }
     for (long i = g_opts.shard; i < cases * g_opts.nshards; i += g_opts.nshards) {
